@@ -555,7 +555,11 @@ impl Parser {
         match self.skipped(Operator::Assign)? {
             true => spec.values = self.expression_list()?,
             false => {
-                if self.current_is(LitKind::Ident) {
+                // anything but the end of the spec starts a type (not only a named one)
+                let end = self.current.is_none()
+                    || self.current_is(Operator::SemiColon)
+                    || self.current_is(Operator::ParenRight);
+                if !end {
                     spec.typ = Some(self.type_()?);
                     self.expect(Operator::Assign)?;
                     spec.values = self.expression_list()?;
